@@ -95,3 +95,35 @@ def exec_typing(r):
         g = classes.build(classes.generic_spec_for(cls))
         ev["gen"] = {"has": True, "toks": classes.describe(g)["toks"], "res": query(g, record(seq))}
     return [ev]
+
+
+def exec_characterize(r):
+    """recipe {base, seq} -> [Characterize event]: AbstractPart.characterize on a part base"""
+    loader.load()
+    import importlib
+    from moclo import core
+    from moclo._utils import isabstract
+    keep = []
+    if "kit" in r["base"]:
+        base = getattr(importlib.import_module("moclo.kits." + r["base"]["kit"]), r["base"]["name"])
+    else:
+        u = r["base"]["user"]
+        cutter = classes.cutter_of(u["enz"])
+        rolebase = {"module": core.Entry, "vector": core.EntryVector}[u["role"]]
+        base = type(str("UserPartBase"), (core.AbstractPart,), {"cutter": cutter})
+        for i, sg in enumerate(u["sigs"]):
+            keep.append(type(str("UserPart%d" % i), (base, rolebase), {"signature": tuple(sg)}))
+    cands = list(base.__subclasses__())
+    if not isabstract(base):
+        cands.append(base)
+    ev = {"ev": "Characterize", "seq": dna.enc(r["seq"]), "base": base.__name__,
+          "cands": [classes.describe(c) for c in cands], "res": {"cls": "", "exc": ""}}
+    try:
+        ent = guarded(lambda: base.characterize(record(r["seq"])))
+        ev["res"]["cls"] = type(ent).__name__
+        ev["res"]["valid"] = bool(ent.is_valid())
+    except BaseException as ex:  # noqa
+        ev["res"]["exc"] = type(ex).__name__
+        ev["res"]["valid"] = False
+    del keep
+    return [ev]
